@@ -42,7 +42,9 @@ PROPS = {
         assumptions=["two commits with identical content are one git object: such generated inputs are skipped"],
     ),
     "C05": dict(
-        parts=[dict(driver="C05w", kmod="K_C05w", shard=40, explain=True)],
+        parts=[dict(driver="C05w", kmod="K_C05w", shard=40, explain=True), dict(driver="C05cli", kmod="K_C05cli", shard=50, explain=True),
+               dict(driver="C05f", kmod="K_C05f", shard=100, explain=True)],
+        needs_gitbug=True,
         case_timeout="300s",
         corr="Sync.sstep (over World.step, incl. AResetClock) = session actions incl. close/reopen with and without clock files",
         rule=WORLD_RULE, trusted=COMMON_TRUSTED + WORLD_TRUSTED,
